@@ -335,6 +335,12 @@ def corruptions(data: Dict[str, Any], types: Dict[Tuple, Any], rpaths: Dict[Tupl
         else:
             out.append(("kind-scalar-to-list", path, set_at(data, path, [value])))
             out.append(("kind-scalar-to-object", path, set_at(data, path, {"v": value})))
+            # a scalar of another scalar kind, restricted to replacements no lenient reading can take for the declared kind
+            wrong = {"String": [17, 2.5, True], "ID": [17, True], "Int": ["seventeen", 2.5], "Float": ["two and a half"], "Boolean": ["perhaps", 17]}.get(named.name)
+            if isinstance(named, GraphQLEnumType):
+                wrong = [17, True]
+            if wrong and isinstance(named, (GraphQLScalarType, GraphQLEnumType)):
+                out.append(("kind-scalar-to-other-scalar", path, set_at(data, path, wrong[rng.randrange(len(wrong))])))
     return out
 
 
